@@ -302,6 +302,16 @@ impl<'a> Gen<'a> {
             let (t, i) = *self.rng.pick(pool);
             threads[t][i].fault = Some(self.disk_fault(&enabled));
         }
+        // a fault storm: the disk is bad for a while — several consecutive
+        // cold loads fail (circuit breakers, retry counters, "degraded mode")
+        if !cold.is_empty() && self.rng.chance(1, 5) {
+            let len = 2 + self.rng.below(4) as usize;
+            let start = self.rng.below(cold.len() as u64) as usize;
+            let f = self.disk_fault(&[FaultKind::Enoent, FaultKind::Eio, FaultKind::Eacces, FaultKind::Trunc]);
+            for (t, i) in cold.iter().skip(start).take(len) {
+                threads[*t][*i].fault = Some(f);
+            }
+        }
     }
 
     // ------------------------------------------------------------ C20
